@@ -50,6 +50,9 @@ def plan(tier):
     # optionally saving in between), save and load again
     for f in ("NestedMeta", "NestedMeta", "MetaModule"):
         descs.append({"kind": "edit_history", "focus": f, "examples": per})
+    # MetaModules whose file holds fewer mapping items than today's 96 (27 and 64 in older SunVox versions): the count
+    # is raised on the loaded object and slots beyond the stored ones are mapped
+    descs.append({"kind": "short_mappings", "examples": per})
     return descs
 
 
@@ -463,9 +466,55 @@ def run_edit_history(ctx, desc):
     run_property(ctx, c06.edit_case(focus=desc["focus"]), body, desc["examples"], tag="edit_history", bucket="edit_history")
 
 
+@st.composite
+def short_mappings_case(draw):
+    items = draw(st.sampled_from([27, 64, 64, 1, 90]))
+    if draw(st.integers(0, 3)) == 0:
+        src = {"src": "fixture", "file": "metamodule.sunsynth"}
+        if items >= 64:
+            items = 64  # what the file holds anyway
+    else:
+        src = {"src": "meta", "spec": draw(meta_spec(1, in_project=False))}
+    src["transform"] = ["short_chunk", 1, items * 4]
+    slots = sorted(draw(st.lists(st.integers(items, 95), min_size=2, max_size=4, unique=True)))
+    eds = [["mod", -1, "pay", "m_count", 96]]
+    for k, sl in enumerate(slots):
+        # targets outside the embedded project: the mapping itself is what is looked at
+        eds.append(["mod", -1, "pay", draw(st.sampled_from(["m_map", "m_map_inplace", "m_map_inplace"])), sl, 0xFFF0 + k, draw(st.integers(0, 40))])
+    src["edits"] = eds
+    src["saves"] = [draw(st.sampled_from([None, None, "read", "clone"])) for _ in eds]
+    return src
+
+
+def run_short_mappings(ctx, desc):
+    from checks import c06
+
+    def body(case):
+        ctx.case()
+        try:
+            labels, changed = c06.run_case(ctx, case)
+        except PropertyViolation as v:
+            raise PropertyViolation("C15.short_mappings." + v.sub_oracle.split(".", 1)[1], v.detail, key="C15.short_mappings." + v.key.split(".", 1)[1])
+        ctx.label("mapping_slots_beyond_those_stored_in_the_file")
+        if changed:
+            ctx.mark_nontrivial(case)
+        if len(repr(case)) < 1000:
+            ctx.sample(case)
+
+    case = {"src": "fixture", "file": "metamodule.sunsynth", "edits": [["mod", -1, "pay", "m_count", 96], ["mod", -1, "pay", "m_map_inplace", 70, 0xFFF0, 7], ["mod", -1, "pay", "m_map_inplace", 80, 0xFFF1, 3]], "saves": [None, None, None]}
+    try:
+        body(case)
+    except PropertyViolation as v_:
+        ctx.check(False, v_.sub_oracle, v_.detail, key=v_.key, recipe={"tag": "edit_history", "case": case})
+    run_property(ctx, short_mappings_case(), body, desc["examples"], tag="edit_history", bucket="short_mappings")
+
+
 def run_shard(ctx, desc):
     if desc["kind"] == "edit_history":
         run_edit_history(ctx, desc)
+        return
+    if desc["kind"] == "short_mappings":
+        run_short_mappings(ctx, desc)
         return
     def body(ms):
         ctx.case()
